@@ -236,4 +236,126 @@ theorem jobGenerator_eq {G : Type} (newG : Nat → G) (setup : Option G → Exce
   | error e => rfl
   | ok o => cases o <;> rfl
 
+/-! ### coverage characterisation, thread pools -/
+
+/-- Exactly when a completion order reproduces the sequential result: every slot is either visited
+or already holds the value the objective function gives. No assumption on `sched` (out-of-range
+entries write nothing, repeated entries are idempotent). -/
+theorem evalPar_eq_iff {S O : Type} (f : S → O) (pop : List (Ind S O)) (sched : List Nat) :
+    evalPar f pop sched = evalSeq f pop ↔
+      ∀ j (h : j < pop.length), j ∈ sched ∨ pop[j].obj = some (f pop[j].sol) := by
+  constructor
+  · intro he j hj
+    have := congrArg (·[j]?) he
+    simp only [evalPar, evalSeq, getElem?_foldl_modifyAt _ (evalInd_idem f), List.getElem?_map] at this
+    by_cases hm : j ∈ sched
+    · exact Or.inl hm
+    · right
+      simp only [hm, if_false, List.getElem?_eq_getElem hj, Option.map_some, Option.some.injEq] at this
+      have h2 := congrArg (·.obj) this
+      simpa [evalInd] using h2
+  · intro h
+    apply List.ext_getElem?
+    intro j
+    unfold evalPar evalSeq
+    rw [getElem?_foldl_modifyAt _ (evalInd_idem f), List.getElem?_map]
+    by_cases hj : j < pop.length
+    · by_cases hm : j ∈ sched
+      · simp [hm]
+      · simp only [hm, if_false, List.getElem?_eq_getElem hj, Option.map_some, Option.some.injEq]
+        rcases h j hj with h1 | h1
+        · exact absurd h1 hm
+        · cases hp : pop[j] with
+          | mk sol obj => rw [hp] at h1; simp only at h1; simp [evalInd, h1]
+    · have hn : pop[j]? = none := List.getElem?_eq_none (by omega)
+      simp [hn]
+
+/-- A split tree divides its block without remainder and in order, whatever its shape. -/
+theorem Split.blocks_tile (t : Split) (lo len : Nat) :
+    (t.blocks lo len).flatMap blockIdx = List.range' lo len := by
+  induction t generalizing lo len with
+  | leaf => simp [Split.blocks, blockIdx]
+  | node k l r ihl ihr =>
+    simp only [Split.blocks, List.flatMap_append, ihl, ihr]
+    have := @List.range'_append lo (min k len) (len - min k len) 1
+    simp only [Nat.one_mul] at this
+    rw [this]
+    congr 1
+    omega
+
+theorem flatMap_range_blocks (size k : Nat) :
+    ((List.range k).map fun c => (c * size, size)).flatMap blockIdx = List.range' 0 (k * size) := by
+  induction k with
+  | zero => simp
+  | succ k ih =>
+    rw [List.range_succ, List.map_append, List.flatMap_append, ih]
+    simp only [List.map_cons, List.map_nil, List.flatMap_cons, List.flatMap_nil, List.append_nil, blockIdx]
+    have := @List.range'_append 0 (k * size) size 1
+    simp only [Nat.one_mul, Nat.zero_add] at this
+    rw [this, Nat.succ_mul]
+
+/-- `par_chunks_exact_mut(size)` visits exactly the first `⌊n / size⌋ · size` slots. -/
+theorem chunksExact_cover (size n : Nat) :
+    (chunksExact size n).flatMap blockIdx = List.range (n / size * size) := by
+  rw [chunksExact, flatMap_range_blocks, List.range_eq_range']
+
+/-- `par_chunks_mut(size)` divides the slice without remainder. -/
+theorem chunks_tile (size n : Nat) (hs : 0 < size) :
+    (chunks size n).flatMap blockIdx = List.range n := by
+  unfold chunks
+  -- full blocks, then possibly one shorter block
+  have hdm := Nat.div_add_mod n size
+  have hml := Nat.mod_lt n hs
+  have e1 : (n / size + 1) * size = size * (n / size) + size := by rw [Nat.add_mul, Nat.mul_comm]; simp
+  have e2 : (n / size + 1 + 1) * size = size * (n / size) + size + size := by
+    rw [Nat.add_mul, Nat.add_mul, Nat.mul_comm]; simp
+  have e0 : n / size * size = size * (n / size) := Nat.mul_comm _ _
+  have hq : (n + size - 1) / size = if n % size = 0 then n / size else n / size + 1 := by
+    split
+    · next h => exact Nat.div_eq_of_lt_le (by omega) (by omega)
+    · next h => exact Nat.div_eq_of_lt_le (by omega) (by omega)
+  rw [hq]
+  have hfull : ∀ k, k ≤ n / size →
+      ((List.range k).map fun c => (c * size, min size (n - c * size)))
+        = (List.range k).map fun c => (c * size, size) := by
+    intro k hk
+    apply List.map_congr_left
+    intro c hc
+    have hc' : c < n / size := Nat.lt_of_lt_of_le (List.mem_range.1 hc) hk
+    have : (c + 1) * size ≤ n := Nat.le_trans (Nat.mul_le_mul_right _ hc') (Nat.div_mul_le_self _ _)
+    rw [Nat.succ_mul] at this
+    simp only [Prod.mk.injEq, true_and]
+    omega
+  split
+  · next h =>
+    rw [hfull _ (Nat.le_refl _), flatMap_range_blocks, List.range_eq_range']
+    congr 1
+    rw [e0]; omega
+  · next h =>
+    rw [List.range_succ, List.map_append, List.flatMap_append, hfull _ (Nat.le_refl _), flatMap_range_blocks]
+    simp only [List.map_cons, List.map_nil, List.flatMap_cons, List.flatMap_nil, List.append_nil, blockIdx]
+    have hmin : min size (n - n / size * size) = n % size := by
+      rw [e0]; omega
+    rw [hmin]
+    have := @List.range'_append 0 (n / size * size) (n % size) 1
+    simp only [Nat.one_mul, Nat.zero_add] at this
+    rw [this, List.range_eq_range']
+    congr 1
+    rw [e0]; omega
+
+/-- The driver's legality check of a witness schedule is sound. -/
+theorem legalSched_sound (sched : List Nat) (n : Nat) (h : legalSched sched n = true) :
+    sched.Perm (List.range n) := by
+  unfold legalSched at h
+  have he : sched.mergeSort (fun a b => decide (a ≤ b)) = List.range n := by simpa using h
+  exact he ▸ (List.mergeSort_perm sched _).symm
+
+theorem SameUpToCallOrder.symm {a b : RunSt} (h : SameUpToCallOrder a b) : SameUpToCallOrder b a :=
+  ⟨h.1.symm, h.2.1.symm, h.2.2.1.symm, h.2.2.2.1.symm, h.2.2.2.2.1.symm, h.2.2.2.2.2.symm⟩
+
+theorem SameUpToCallOrder.trans {a b c : RunSt} (h : SameUpToCallOrder a b) (g : SameUpToCallOrder b c) :
+    SameUpToCallOrder a c :=
+  ⟨h.1.trans g.1, h.2.1.trans g.2.1, h.2.2.1.trans g.2.2.1, h.2.2.2.1.trans g.2.2.2.1,
+   h.2.2.2.2.1.trans g.2.2.2.2.1, h.2.2.2.2.2.trans g.2.2.2.2.2⟩
+
 end MahfModel.Determinism
